@@ -144,7 +144,10 @@ def lnd_case(arg):
     warnings.simplefilter("ignore")
     rng = random.Random(seed)
     dim = rng.choice([2, 2, 3])
-    g = fn_nd(dim, rng.uniform(0.5, 3), rng.uniform(-1, 1))
+    g0 = fn_nd(dim, rng.uniform(0.5, 3), rng.uniform(-1, 1))
+    vec = rng.random() < 0.35
+    # vector outputs whose components live in offset bands (the first value already spreads over several units)
+    g = (lambda p: np.array([g0(p) - 3.0, 0.5 * g0(p) + 3.0])) if vec else g0
     if pow2:
         cx, cy = 2.0 ** rng.randint(-30, 30), 2.0 ** rng.randint(-30, 30)
     else:
@@ -154,10 +157,10 @@ def lnd_case(arg):
     b = adaptive.LearnerND(lambda p: cy * g(tuple(x / cx for x in p)), bounds=[(cx * l, cx * h) for l, h in bounds])
     eq = eq_exact if pow2 else eq_close
     out = []
-    res = {"seed": seed, "pow2": pow2, "dim": dim, "cx": cx, "cy": cy, "fail": None, "steps": 0}
+    res = {"seed": seed, "pow2": pow2, "dim": dim, "cx": cx, "cy": cy, "fail": None, "steps": 0, "vector": vec}
 
     def fail(cl, det):
-        res["fail"] = (cl, f"[LearnerND {dim}-D, cx={cx!r}, cy={cy!r}] step {res['steps']}: {det}")
+        res["fail"] = (cl, f"[LearnerND {dim}-D{' vector' if vec else ''}, cx={cx!r}, cy={cy!r}] step {res['steps']}: {det}")
         return res
 
     try:
@@ -172,6 +175,10 @@ def lnd_case(arg):
                 same = eq(sp, [list(p) for p in pb]) if pow2 else eq_close(sp, [list(p) for p in pb], 1e-9, 1e-9 * cx)
                 if len(pa) != len(pb) or not same:
                     res["ulp_level"] = len(pa) == len(pb) and eq_close(sp, [list(p) for p in pb], 1e-12, 0.0)
+                    if not res["ulp_level"] and len(pa) == len(pb) and eq_close(sorted(sp), sorted(list(p) for p in pb), 1e-12, 1e-9 * cx):
+                        # the same points in another order: simplices of (mathematically) equal loss, the tie is broken by
+                        # last-bit differences of the losses
+                        res["ulp_level"] = True
                     return fail("points", f"ask({n}): original {pa} but rescaled learner chose {pb}")
                 if not eq(ia, ib):
                     res["ulp_level"] = eq_close(ia, ib, 1e-12, 0.0)
